@@ -17,6 +17,32 @@ func startEdge(t tensor.Tensor) (edge *backwardEdge) {
 }
 
 func backward(edge *backwardEdge) (err error) {
+	root := gradContextOf(edge.target)
+
+	if !root.tracked {
+		return nil
+	}
+
+	err = applyEdge(edge)
+	if err != nil {
+		return
+	}
+
+	// every context is handled once, after all of its consumers have delivered their
+	// contributions, so that the back edges see a complete gradient
+	for _, gctx := range consumersFirst(root) {
+		for _, e := range gctx.backEdges {
+			err = applyEdge(e)
+			if err != nil {
+				return
+			}
+		}
+	}
+
+	return nil
+}
+
+func applyEdge(edge *backwardEdge) (err error) {
 	gctx := gradContextOf(edge.target)
 
 	if !gctx.tracked {
@@ -30,19 +56,7 @@ func backward(edge *backwardEdge) (err error) {
 		return
 	}
 
-	err = accumulateGrad(gctx, grad)
-	if err != nil {
-		return
-	}
-
-	for _, e := range gctx.backEdges {
-		err = backward(e)
-		if err != nil {
-			return
-		}
-	}
-
-	return nil
+	return accumulateGrad(gctx, grad)
 }
 
 func accumulateGrad(gctx *GradContext, grad tensor.Tensor) (err error) {
@@ -56,4 +70,37 @@ func accumulateGrad(gctx *GradContext, grad tensor.Tensor) (err error) {
 	}
 
 	return nil
+}
+
+/* ----- helpers ----- */
+
+// consumersFirst lists root and every tracked context reachable from it through back edges,
+// each one after all the contexts that hold an edge to it (reverse depth-first post-order).
+func consumersFirst(root *GradContext) (order []*GradContext) {
+	visited := make(map[*GradContext]bool)
+
+	var visit func(*GradContext)
+	visit = func(gctx *GradContext) {
+		if visited[gctx] {
+			return
+		}
+
+		visited[gctx] = true
+		for _, e := range gctx.backEdges {
+			tctx := gradContextOf(e.target)
+			if tctx.tracked {
+				visit(tctx)
+			}
+		}
+
+		order = append(order, gctx)
+	}
+
+	visit(root)
+
+	for i, j := 0, len(order)-1; i < j; i, j = i+1, j-1 {
+		order[i], order[j] = order[j], order[i]
+	}
+
+	return order
 }
